@@ -15,7 +15,17 @@ XML_FAMILY = ('xml', 'soap11', 'soap12')
 DICT_FAMILY = ('json', 'yaml', 'msgpack')
 
 
+# input protocol > output protocol: a fault that echoes request content must be writable in the
+# OUTPUT protocol whatever the input protocol let through
+CROSS = ('json>xml', 'json>soap11', 'json>soap12', 'msgpack>xml', 'yaml>soap11')
+
+
+def in_proto(proto):
+    return proto.split('>')[0]
+
+
 def validators(proto):
+    proto = in_proto(proto)
     if proto in XML_FAMILY:
         return (None, 'soft', 'lxml')
     return (None, 'soft')
@@ -52,8 +62,8 @@ class Services(object):
             P = {'xml': XmlDocument, 'soap11': Soap11, 'soap12': Soap12, 'json': JsonDocument, 'yaml': YamlDocument,
                  'msgpack': MessagePackDocument, 'mprpc': MessagePackRpc, 'http': HttpRpc}
             outp = {'xml': XmlDocument, 'soap11': Soap11, 'soap12': Soap12, 'yaml': YamlDocument,
-                    'msgpack': MessagePackDocument, 'mprpc': MessagePackRpc}.get(proto, JsonDocument)()
-            self._apps[key] = Application([self.service(which)], TNS, in_protocol=P[proto](validator=validator),
+                    'msgpack': MessagePackDocument, 'mprpc': MessagePackRpc}.get(out_family(proto), JsonDocument)()
+            self._apps[key] = Application([self.service(which)], TNS, in_protocol=P[in_proto(proto)](validator=validator),
                                           out_protocol=outp)
         return self._apps[key]
 
@@ -142,7 +152,7 @@ def drive_wsgi(sv, which, proto, validator, body, method='POST', ctype='', path=
         ctype = {'xml': 'text/xml; charset=utf-8', 'soap11': 'text/xml; charset=utf-8',
                  'soap12': 'application/soap+xml; charset=utf-8', 'json': 'application/json',
                  'yaml': 'text/yaml', 'msgpack': 'application/x-msgpack', 'mprpc': 'application/x-msgpack',
-                 'http': None}[proto]
+                 'http': None}[in_proto(proto)]
     env = {'REQUEST_METHOD': method, 'PATH_INFO': path, 'QUERY_STRING': qs, 'SERVER_NAME': 'x', 'SERVER_PORT': '80',
            'wsgi.url_scheme': 'http', 'wsgi.input': BytesIO(body), 'SCRIPT_NAME': ''}
     if ctype is not None:
@@ -174,6 +184,8 @@ def drive_wsgi(sv, which, proto, validator, body, method='POST', ctype='', path=
 
 
 def out_family(proto):
+    if '>' in proto:
+        proto = proto.split('>')[1]
     return proto if proto in ('xml', 'soap11', 'soap12', 'yaml', 'msgpack', 'mprpc') else 'json'
 
 
